@@ -289,6 +289,8 @@ pub enum IoOp {
     WriteVectored(Vec<u16>),
     WriteAll(u16),
     WriteFmt(u16),
+    /// write!/writeln! with a format string that has no arguments (std hands such strings over without formatting)
+    WriteLiteral(u8),
     Flush,
 }
 
@@ -486,6 +488,19 @@ fn run_io(c: &IoCase) -> CaseResult {
                 e.pos += (w_obj.st().accepted.len() - acc_before) as u64;
                 v.label_if(r1.is_err() && w_obj.st().accepted.len() > acc_before, "write_all_failed_midway");
             }
+            IoOp::WriteLiteral(k) => {
+                let acc_before = w_obj.st().accepted.len();
+                let (r1, r2) = match k % 4 {
+                    0 => (write!(wrapped, "done"), write!(plain, "done")),
+                    1 => (write!(wrapped, "a literal of some length, without any argument\n"), write!(plain, "a literal of some length, without any argument\n")),
+                    2 => (writeln!(wrapped), writeln!(plain)),
+                    _ => (write!(wrapped, "{{}}"), write!(plain, "{{}}")),
+                };
+                same!(r1, r2);
+                e.pos += (w_obj.st().accepted.len() - acc_before) as u64;
+                v.label_if(w_obj.st().accepted.len() > acc_before, "write_of_a_literal");
+                v.label_if(r1.is_err() && w_obj.st().accepted.len() > acc_before, "write_all_failed_midway");
+            }
             IoOp::Flush => {
                 let (r1, r2) = (wrapped.flush(), plain.flush());
                 same!(r1, r2);
@@ -530,6 +545,7 @@ fn io_strategy(tier: Tier) -> BoxedStrategy<IoCase> {
         2 => lens().prop_map(IoOp::WriteVectored),
         2 => (0u16..80).prop_map(IoOp::WriteAll),
         1 => (0u16..40).prop_map(IoOp::WriteFmt),
+        1 => any::<u8>().prop_map(IoOp::WriteLiteral),
         1 => Just(IoOp::Flush),
     ];
     (0u16..400, proptest::collection::vec(res_strategy(false), 0..40), proptest::collection::vec(op, 0..n))
@@ -1068,6 +1084,11 @@ pub enum Shape {
     UnindexedBridge,
     Rev,
     WithMinLen(u8),
+    /// two adaptors stacked on the split: the first one derives its length from size_hint(), the second one asks for it
+    ZipEnumerate,
+    ChainEnumerate,
+    StepByEnumerate(u8),
+    RevZipPositions,
 }
 
 #[derive(Debug, Clone, Serialize, Deserialize)]
@@ -1165,6 +1186,32 @@ fn run_par(c: &ParCase) -> CaseResult {
                         return Err("rev differs".into());
                     }
                 }
+                Shape::ZipEnumerate => {
+                    let v: Vec<(usize, (u64, u64))> = wrapi!(items.par_iter().copied()).zip(items.par_iter().copied()).enumerate().map(|(i, (a, b))| (i, (tap(a), b))).collect();
+                    if v != items.iter().map(|x| (*x, *x)).enumerate().collect::<Vec<_>>() {
+                        return Err("zip+enumerate differs".into());
+                    }
+                }
+                Shape::ChainEnumerate => {
+                    let v: Vec<(usize, u64)> = wrapi!(items.par_iter().copied()).map(tap).chain(items.par_iter().copied()).enumerate().collect();
+                    if v != items.iter().copied().chain(items.iter().copied()).enumerate().collect::<Vec<_>>() {
+                        return Err("chain+enumerate differs".into());
+                    }
+                }
+                Shape::StepByEnumerate(k) => {
+                    let k = (k as usize).max(1);
+                    let v: Vec<(usize, u64)> = wrapi!(items.par_iter().copied()).map(tap).step_by(k).enumerate().collect();
+                    if v != items.iter().copied().step_by(k).enumerate().collect::<Vec<_>>() {
+                        return Err("step_by+enumerate differs".into());
+                    }
+                }
+                Shape::RevZipPositions => {
+                    let v: Vec<usize> = wrapi!(items.par_iter().copied()).rev().zip(items.par_iter().copied()).positions(|(a, b)| tap(a) >= b).collect();
+                    let w: Vec<usize> = items.iter().rev().copied().zip(items.iter().copied()).enumerate().filter(|(_, (a, b))| a >= b).map(|(i, _)| i).collect();
+                    if v != w {
+                        return Err("rev+zip+positions differs".into());
+                    }
+                }
                 Shape::WithMinLen(k) => {
                     let v: Vec<u64> = wrapi!(items.par_iter().copied()).with_min_len((k as usize).max(1)).map(tap).collect();
                     if v != items {
@@ -1179,14 +1226,18 @@ fn run_par(c: &ParCase) -> CaseResult {
     res.map_err(|m| Fail::new("transparency", format!("{c:?}: {m}")))?;
     let transferred = seen.load(Ordering::SeqCst);
     let got = pb.position();
-    let producer_path = matches!(c.shape, Shape::Zip | Shape::Enumerate | Shape::Chunks(_) | Shape::Rev | Shape::WithMinLen(_));
+    let stacked = matches!(c.shape, Shape::ZipEnumerate | Shape::ChainEnumerate | Shape::StepByEnumerate(_) | Shape::RevZipPositions);
+    let producer_path = stacked || matches!(c.shape, Shape::Zip | Shape::Enumerate | Shape::Chunks(_) | Shape::Rev | Shape::WithMinLen(_));
     let kind = if producer_path { "count_rayon_producer" } else { "count_rayon" };
     let expect_n = match c.shape {
         Shape::Filter => items.iter().filter(|x| *x % 2 == 0).count() as u64,
         Shape::FindAny(_) => transferred,
+        // (step_by pulls the items it skips through the adaptor as well - all but, possibly, the last few of
+        // a split; the tap sits in front of it and counts what was pulled)
+        Shape::StepByEnumerate(_) => transferred,
         _ => n as u64,
     };
-    ensure!(transferred == expect_n || matches!(c.shape, Shape::FindAny(_)), "harness", "tap count {transferred} != {expect_n}");
+    ensure!(transferred == expect_n, "harness", "tap count {transferred} != {expect_n}");
     ensure!(
         got == transferred,
         kind,
@@ -1197,6 +1248,7 @@ fn run_par(c: &ParCase) -> CaseResult {
     v.nontrivial = c.threads >= 2 && n >= 2;
     v.label_if(v.nontrivial, "parallel_split");
     v.label_if(producer_path, "producer_path");
+    v.label_if(stacked && n > 0, "adaptors_stacked_on_the_split");
     v.label_if(matches!(c.shape, Shape::FindAny(_)), "short_circuit");
     v.label_if(c.default_finish, "default_finish");
     Ok(v)
@@ -1215,6 +1267,10 @@ fn par_strategy(_t: Tier) -> BoxedStrategy<ParCase> {
         Just(Shape::UnindexedBridge),
         Just(Shape::Rev),
         (1u8..40).prop_map(Shape::WithMinLen),
+        Just(Shape::ZipEnumerate),
+        Just(Shape::ChainEnumerate),
+        (1u8..9).prop_map(Shape::StepByEnumerate),
+        Just(Shape::RevZipPositions),
     ];
     (prop_oneof![3 => 0u16..40, 2 => 40u16..5000], 1u8..=8, shape, 0u8..3, any::<bool>())
         .prop_map(|(n, threads, shape, via, default_finish)| ParCase { n, threads, shape, via, default_finish })
@@ -1235,12 +1291,12 @@ pub fn property() -> Property {
         parts: vec![
             Box::new(Gen::<IoCase> {
                 name: "io",
-                rule: "scripted source/sink (every primitive call result generated: full, short, zero, 5 error kinds) driven by 0-14 (thorough 30) calls of read/read_vectored/read_exact/read_to_string/read_line/fill_buf/seek_relative/rewind/consume/seek(Start|Current|End)/stream_position/write/write_vectored/write_all/write!/flush; wrapped vs unwrapped twin must return the same values, errors and data, position() must follow the transferred bytes; non-trivial = a short transfer, an error, a partial consume or a write_all failing mid-way",
+                rule: "scripted source/sink (every primitive call result generated: full, short, zero, 5 error kinds) driven by 0-14 (thorough 30) calls of read/read_vectored/read_exact/read_to_string/read_line/fill_buf/seek_relative/rewind/consume/seek(Start|Current|End)/stream_position/write/write_vectored/write_all/write! (with and without arguments)/writeln!/flush; wrapped vs unwrapped twin must return the same values, errors and data, position() must follow the transferred bytes; non-trivial = a short transfer, an error, a partial consume or a write_all failing mid-way",
                 strategy: io_strategy,
                 cases: |t| t.pick(6_000, 300_000),
                 run: run_io,
                 signature: no_signature,
-                essential: &["short_transfer", "error", "partial_consume", "write_all_failed_midway", "seek", "vectored", "fill_buf", "read_into_non_empty_string", "relative_seek_while_out_of_step", "rewind_from_a_non_zero_offset"],
+                essential: &["short_transfer", "error", "partial_consume", "write_all_failed_midway", "seek", "vectored", "fill_buf", "read_into_non_empty_string", "relative_seek_while_out_of_step", "rewind_from_a_non_zero_offset", "write_of_a_literal"],
                 workers: w,
                 decode: None,
             }),
@@ -1268,12 +1324,12 @@ pub fn property() -> Property {
             }),
             Box::new(Gen::<ParCase> {
                 name: "rayon",
-                rule: "0..5000 items in pools of 1..8 threads through for_each/map+collect/sum/zip/enumerate/chunks/filter/find_any/par_bridge/rev/with_min_len; result equals the sequential result, position == items handed on; non-trivial = >= 2 threads and >= 2 items",
+                rule: "0..5000 items in pools of 1..8 threads through for_each/map+collect/sum/zip/enumerate/chunks/filter/find_any/par_bridge/rev/with_min_len and the stacked zip+enumerate, chain+enumerate, step_by+enumerate, rev+zip+positions; result equals the sequential result, position == items handed on; non-trivial = >= 2 threads and >= 2 items",
                 strategy: par_strategy,
                 cases: |t| t.pick(300, 8_000),
                 run: run_par,
                 signature: no_signature,
-                essential: &["parallel_split", "producer_path", "short_circuit", "default_finish"],
+                essential: &["parallel_split", "producer_path", "short_circuit", "default_finish", "adaptors_stacked_on_the_split"],
                 workers: 4,
                 decode: None,
             }),
